@@ -211,6 +211,15 @@ PROPS = {
         assumptions=COMMON_ASSUME + ["block sizes stay within the receive block's true capacity (beyond is C09's subject); return codes of regp_process are not asserted"],
         targets=[rc("rc", ["props/C06_rc.cpp"], 2500, 100000, qs=8, ts=16, max_size=100)],
     ),
+    "C07": dict(
+        level="exploration",
+        exhaustive_possible=False,
+        rule="cases are de-framed octet strings (enumerated corruptions of a reference-encoded corpus, option-bit/checksum/length combinations, random strings) delivered through the real "
+             "transport framing; oracle = the reference decoder's verdict vs. the receiver's classification, empty back-end log, no ACK, prescribed meta / error reply; non-trivial = an "
+             "input whose version/type/reserved bits are valid so that only a checksum or the size rule can reject it; distinct by octet string",
+        assumptions=COMMON_ASSUME + ["a frame that declares a payload checksum but carries no payload, and a payload-less write response with non-zero block size, are don't-care (document silent)"],
+        targets=[enum("enum", ["props/C07_enum.cpp"], qs=12, ts=16)],
+    ),
 }
 
 NOTE_COMMON = ("trusted: clang/ASan/UBSan, the harness and its reference model; the search is bounded (see evidence: tier bounds and counts); "
@@ -358,6 +367,15 @@ MANIFEST_TEXT = {
         level_text="Sessions of valid frames (all request kinds, word-size mismatches, responses and meta messages interleaved) run through regp_recv/regp_process/regp_free on both "
                    "transports and memory widths with every back-end verdict; the back-end records every access with a copy of the payload, the reply octets are decoded by the "
                    "reference implementation of the protocol document and compared field by field with the prescribed response.",
+        level_note=NOTE_COMMON,
+    ),
+    "C07": dict(
+        engine="enum + libFuzzer",
+        technique="exhaustive error-pattern enumeration (1-/2-bit flips, bursts <= 16, truncation, extension) over a reference-encoded corpus + differential verdict check against a reference decoder on generated and fuzzed octet strings",
+        level_text="Every single-bit flip, every two-bit flip and every burst up to 16 bits (thorough: all interior patterns) behind the first header word, every truncation and small "
+                   "extension of each corpus frame is pushed through SLIP, regp_recv and regp_process; no such frame may reach the back-end or be acknowledged, and the receiver's "
+                   "classification and reply must equal those derived from an independent decoder of doc/regp.txt. The same differential oracle runs over all option-bit/checksum/length "
+                   "combinations on both transports and over random and coverage-guided octet strings.",
         level_note=NOTE_COMMON,
     ),
 }
